@@ -642,3 +642,155 @@ def neg_zero_slice_rule(report, p, pr, rid, roots, what):
             r.check(False, f, n, f"`{norm(n)[:60]}` with `{norm(k)}` a remainder: when it is 0 (the count is an exact multiple) the slice is {'the WHOLE sequence' if which == 'lower' else 'EMPTY'} instead of {'empty' if which == 'lower' else 'the whole sequence'} - every item is handled twice / none at all for exactly those counts", construct=f"slice bound -{norm(k)} can be -0")
     r.check(True, None, None, "")
     return r
+
+
+# ---------------------------------------------------------------------- sorting of values that cannot be ordered
+def _package_fields(p):
+    k = ("pkgfields", id(p))
+    if k not in _cache_common:
+        names = set()
+        for c in p.classes.values():
+            for m in c.methods.values():
+                for n in walk_no_nested(m.node):
+                    if isinstance(n, ast.Attribute) and isinstance(n.ctx, ast.Store) and isinstance(n.value, ast.Name) and n.value.id == "self":
+                        names.add(n.attr)
+        _cache_common[k] = names
+    return _cache_common[k]
+
+
+_cache_common = {}
+
+
+def _orderable_class(p, cq) -> bool:
+    return any(m in p.classes[k].methods for k in p.mro(cq) for m in ("__lt__", "__gt__", "__le__", "__ge__")) or any(b.split(".")[-1] in ("NamedTuple", "tuple", "str", "int", "float", "IntEnum") for b in p.ext_bases(cq))
+
+
+def unorderable_sorts(p, f):
+    """[(call node, element display, offending element, why)] - `sorted(C)` / `C.sort()` / `min(C)` / `max(C)` without a key in function f where C receives tuple
+    displays (or bare values) containing an instance of a package class that defines no ordering: as soon as two elements tie on everything in front of the
+    object (or at once, for bare objects) Python compares the objects and raises TypeError"""
+    out = []
+    fields = _package_fields(p)
+
+    def is_model(e, fn):
+        try:
+            t = p.etype(e, fn)
+        except Exception:
+            t = None
+        if t and t[0] == "C" and t[1] in p.classes:
+            return not _orderable_class(p, t[1])
+        if t:
+            return False
+        if isinstance(e, ast.Name):
+            # a value whose fields are read (`e.hash_format`, not a method call) and whose fields are fields of package classes
+            loads = [n for n in walk_no_nested(fn.node) if isinstance(n, ast.Attribute) and isinstance(n.ctx, ast.Load) and isinstance(n.value, ast.Name) and n.value.id == e.id and not (isinstance(parent(n), ast.Call) and parent(n).func is n)]
+            return bool(loads) and all(n.attr in fields or n.attr.startswith("temp_") for n in loads)
+        return False
+
+    def displays_into(name, fn):
+        """element expressions put into the local collection `name` in fn"""
+        els = []
+        for n in walk_no_nested(fn.node):
+            if isinstance(n, ast.Call) and isinstance(n.func, ast.Attribute) and n.func.attr in ("append", "add") and isinstance(n.func.value, ast.Name) and n.func.value.id == name and n.args:
+                els.append((n.args[0], fn))
+            elif isinstance(n, ast.Assign) and any(isinstance(t, ast.Name) and t.id == name for t in n.targets):
+                v = n.value
+                if isinstance(v, (ast.List, ast.Set, ast.Tuple)):
+                    els += [(x, fn) for x in v.elts]
+                elif isinstance(v, (ast.ListComp, ast.SetComp, ast.GeneratorExp)):
+                    els.append((v.elt, fn))
+            elif isinstance(n, ast.AugAssign) and isinstance(n.target, ast.Name) and n.target.id == name and isinstance(n.value, (ast.List, ast.Tuple)):
+                els += [(x, fn) for x in n.value.elts]
+        return els
+
+    for n in walk_no_nested(f.node):
+        if not isinstance(n, ast.Call) or any(k.arg == "key" for k in n.keywords):
+            continue
+        coll = None
+        if isinstance(n.func, ast.Name) and n.func.id in ("sorted", "min", "max") and len(n.args) == 1:
+            coll = n.args[0]
+        elif isinstance(n.func, ast.Attribute) and n.func.attr == "sort" and not n.args:
+            coll = n.func.value
+        if coll is None:
+            continue
+        els = []
+        if isinstance(coll, (ast.ListComp, ast.SetComp, ast.GeneratorExp)):
+            els = [(coll.elt, f)]
+        elif isinstance(coll, (ast.List, ast.Set, ast.Tuple)):
+            els = [(x, f) for x in coll.elts]
+        elif isinstance(coll, ast.Name):
+            els = displays_into(coll.id, f)
+            if not els and coll.id in f.params:
+                for cf, call in callers_of(p, f.qual):
+                    b = p.bind_args(f, call)
+                    a = b.get(coll.id)
+                    if isinstance(a, ast.Name):
+                        els += displays_into(a.id, cf)
+        for e, fn in els:
+            if isinstance(e, ast.Tuple):
+                for i, x in enumerate(e.elts):
+                    if is_model(x, fn):
+                        out.append((n, e, x, f"element {i + 1} of the tuples `{norm(e)[:70]}` is an object without an ordering: two tuples that tie on the {i} value(s) in front of it make Python compare the objects" if i else f"the first element of the tuples `{norm(e)[:70]}` is an object without an ordering"))
+                        break
+            elif is_model(e, fn):
+                out.append((n, e, e, f"the elements (`{norm(e)[:50]}`) are objects without an ordering"))
+    return out
+
+
+def unorderable_sort_rule(report, p, rid, what="any command"):
+    r = report.rule(
+        rid,
+        f"no un-keyed sorted() / .sort() / min() / max() over values that contain model objects without an ordering (tuples carrying a hash entry / media hash / history): "
+        f"a tie on the leading elements makes Python compare the objects and raises TypeError in the middle of {what} - before the exit code is decided",
+        3,
+    )
+    n_sorts = 0
+    for q, f in sorted(p.funcs.items()):
+        if not f.module.name.startswith("ascmhl"):
+            continue
+        for n in walk_no_nested(f.node):
+            if isinstance(n, ast.Call) and ((isinstance(n.func, ast.Name) and n.func.id in ("sorted", "min", "max")) or (isinstance(n.func, ast.Attribute) and n.func.attr == "sort")):
+                n_sorts += 1
+                r.instance(f, n, norm(n)[:60])
+        for call, disp, el, why in unorderable_sorts(p, f):
+            r.check(False, f, call, f"`{norm(call)[:60]}` sorts without a key and {why}: TypeError ('<' not supported) - e.g. two records of one folder and one generation in different hash formats", construct=f"un-keyed sort over tuples holding `{norm(el)[:30]}`")
+    r.check(True, None, None, "")
+    return r
+
+
+# ---------------------------------------------------------------------- character-level rewrites of a string value
+_REWRITE_LEAVES = ("join", "replace", "translate", "sub", "subn", "encode", "decode", "strip", "lstrip", "rstrip", "lower", "upper", "casefold", "title", "capitalize",
+                   "swapcase", "normalize", "expandtabs", "quote", "quote_plus", "unquote", "removeprefix", "removesuffix", "ljust", "rjust", "center", "zfill", "format")
+
+
+def strip_string_rewrites(term):
+    """(inner term, [rewrite names]) - peels calls / operators that map a string to another string character by character or by cutting (`''.join(<comp over s>)`,
+    s.replace(..), re.sub(.., s), s.encode().decode(), unicodedata.normalize(.., s), s[:n], s.strip() ...) off a provenance term"""
+    names = []
+    t = term
+    for _ in range(8):
+        while t[0] == "alt" and len(t[1]) == 1:
+            t = t[1][0]
+        if t[0] == "call" and t[1].split(".")[-1] in _REWRITE_LEAVES:
+            leaf = t[1].split(".")[-1]
+            cands = list(t[2]) + ([t[5]] if len(t) > 5 and t[5] is not None else [])
+            inner = None
+            for c in cands:
+                if c is None:
+                    continue
+                if c[0] == "op" and c[1] == "comp" and c[2]:
+                    inner = c[2][0]
+                    break
+                if c[0] not in ("const",):
+                    inner = c if inner is None else inner
+            if inner is None:
+                break
+            names.append(leaf)
+            t = inner
+            continue
+        if t[0] == "op" and t[1] == "slice" and t[2]:
+            names.append("slice")
+            t = t[2][0]
+            continue
+        break
+    return t, names
